@@ -189,6 +189,10 @@ def gen_driver(inv, T, tier):
         cname = f.get("class_template")
         if not cname or cname not in ct:
             continue
+        if f.get("access", 0) != 0:
+            # private/protected member templates (helpers) cannot be named from the driver; they are instantiated by
+            # the public members that call them
+            continue
         c = ct[cname]
         if [p["n"] for p in c["tparams"]] != ["NumericType"] or cname.split("::")[-1] in used_as_base:
             # member templates of the Dimensional*/Dimensionless* bases: instantiated through the
